@@ -371,7 +371,9 @@ func (g *gen) genField(fieldType types.Type, thisField, thatField string) error 
 		p.In()
 		ref := typ.Elem()
 		p.P("%s = new(%s)", thatField, g.TypeString(typ.Elem()))
-		if hasDeepCopyMethod(ref) {
+		if _, isStruct := ref.Underlying().(*types.Struct); isStruct && hasDeepCopyMethod(ref) {
+			// the method of a struct takes the pointer; a named slice or map takes the value,
+			// which the function for the pointer type hands over
 			p.P("%s.DeepCopy(%s)", wrap(thisField), thatField)
 		} else if canCopy(typ.Elem()) {
 			p.P("*%s = *%s", thatField, thisField)
